@@ -1,4 +1,5 @@
 import AcraModel.Keystore.CrashLemmas
+import AcraModel.Keystore.RefineCrash
 /-!
 # C08 — a crash or I/O failure during a keystore write never loses or corrupts keys
 
@@ -118,6 +119,97 @@ theorem v2_crash_live_counterexample :
     let cut := (V2.init.step (.gen ss0)).1.stepF ⟨.ca, 5⟩ (.gen ss0)
     cut.2.2 = .crash ∧ (cut.1.step (.cur ss0)).2 = .key 1 ∧ (cut.1.step (.gen ss0)).2 = .err ∧ (cut.1.step .list).2 = .err := by decide +kernel
 
+/-! ## whole write operations after an arbitrary history -/
+
+/-- **v1_write_op_atomic.** For every cache size, every history `h` (any operations at all), every
+fault (error, crash before/after, torn write) at any call, and every *single-file* key (symmetric,
+HMAC, audit log – a key pair is two files: known finding `v1:key-pair-half-written`,
+`v1_pair_counterexample`): after generate/rotate of slot `s` is cut by the fault – including every
+error path of `WriteKeyFile`/`backupHistoricalKeyFile` (backup after a failing `Stat`, `Copy` after a
+failing `Link`) – no other key file and no other history directory has changed, the history of the
+key only grew, and its current file is what it was or completely the new generation; in the latter
+case the previous content is in the history. Hence every generation the storage held, it still holds
+with the same content (`FS.holds` is what `V1.abs` reads), and a torn write never reaches a key. -/
+theorem v1_write_op_atomic (c : Int) (h : List Op) (ft : Fault) (s : Slot) (hp : s.kind.isPair = false) :
+    let st := ((V1.init c).run h).1
+    let fs' := (st.stepF ft (.gen s)).1.fs
+    (∀ f', f' ≠ privFile s → fs'.cur f' = st.fs.cur f' ∧ fs'.old f' = st.fs.old f') ∧
+    (∃ l, fs'.old (privFile s) = st.fs.old (privFile s) ++ l) ∧
+    (fs'.cur (privFile s) = st.fs.cur (privFile s) ∨
+      (fs'.cur (privFile s) = some (.full (st.count s + 1)) ∧
+        ∀ c0, st.fs.cur (privFile s) = some c0 → ∃ t, (t, c0) ∈ fs'.old (privFile s))) ∧
+    (∀ f' g, st.fs.holds f' g = true → fs'.holds f' g = true) := by
+  intro st fs'
+  have hw := V1.stepF_gen_atomic st ft s hp
+  exact ⟨hw.others, hw.grow, hw.target, fun f' g hh => hw.holds f' g hh⟩
+
+/-- **v1_write_op_atomic (what a reopened store reads).** Same situation; after reopening (empty cache),
+reading the current key of any slot `s'` gives what it gave before the faulted rotation – or, for the
+rotated slot itself, the completely new key. -/
+theorem v1_write_op_atomic_reads (c : Int) (h : List Op) (ft : Fault) (s s' : Slot) (hp : s.kind.isPair = false) :
+    let st := ((V1.init c).run h).1
+    let st' := (st.stepF ft (.gen s)).1
+    (st'.clear.step (.cur s')).2 = (st.clear.step (.cur s')).2 ∨
+    (s' = s ∧ (st'.clear.step (.cur s')).2 = .key (st.count s + 1)) := by
+  exact V1.stepF_gen_reads _ ft s s' hp
+
+/-- **v1_destroy_op_atomic.** The same for destroy-rotated of a single-file key: under any fault the
+storage is unchanged, or exactly the history file listed under the index is gone. -/
+theorem v1_destroy_op_atomic (c : Int) (h : List Op) (ft : Fault) (s : Slot) (i : Nat) (hp : s.kind.isPair = false) :
+    let st := ((V1.init c).run h).1
+    let fs' := (st.stepF ft (.drot s i)).1.fs
+    fs' = st.fs ∨ ∃ t c0, (st.fs.old (privFile s))[i - KeyNames.v1DestroyIndexOffset]? = some (t, c0) ∧
+      fs' = { st.fs with old := upd st.fs.old (privFile s) ((st.fs.old (privFile s)).filter (·.1 ≠ t)) } :=
+  V1.stepF_drot_atomic _ ft s i hp
+
+/-- **v2_write_op_atomic.** For every history `h` without destroy-current and without read-write opens
+before the first generation (the hypotheses of `C06.v2_refines_spec`), every fault at any back-end
+call, and every slot that *has been generated before* (the first generation is three ring writes and
+can leave a ring without current key: known finding `v2:ring-without-current-key`): after
+generate/rotate of `s` is cut by the fault, every other ring is untouched and the ring of `s` is what it
+was, or has the new key appended while the old key is still current, or is completely rotated. In each
+case every key that was readable reads the same and the current key is the old or the new generation. -/
+theorem v2_write_op_atomic (h : List Op) (hops : ∀ o ∈ h, o.isDcur = false ∧ o.idxOk = true)
+    (hgf : genFirst (fun _ => false) h = true) (ft : Fault) (s : Slot) (hn : (V2.init.run h).1.count s ≠ 0) :
+    let st := (V2.init.run h).1
+    let st' := (st.stepF ft (.gen s)).1
+    ∃ r r', st.rings s = some r ∧ st'.rings s = some r' ∧
+      (∀ s', s' ≠ s → st'.rings s' = st.rings s') ∧
+      (r' = r ∨ r' = ⟨r.keys ++ [⟨st.count s + 1, .preActive, some (st.count s + 1)⟩], r.current⟩ ∨ r' = r.added (st.count s)) ∧
+      (∀ q g, r.material q = some g → r'.material q = some g) ∧
+      (r'.current.bind r'.material = some (st.count s) ∨ r'.current.bind r'.material = some (st.count s + 1)) := by
+  intro st st'
+  have hinv := (V2.run_sim h V2.init (fun _ => false) V2.Inv.init (by intro s hs; cases hs) hops hgf).1
+  rcases hinv.ring s with ⟨_, h0⟩ | ⟨r, hr, _, hok⟩
+  · exact absurd h0 hn
+  · obtain ⟨ho, hcases⟩ := V2.stepF_gen_atomic st ft s r hr hok
+    have hex : ∃ r', st'.rings s = some r' ∧
+        (r' = r ∨ r' = ⟨r.keys ++ [⟨st.count s + 1, .preActive, some (st.count s + 1)⟩], r.current⟩ ∨ r' = r.added (st.count s)) := by
+      rcases hcases with h1 | h1 | h1
+      · exact ⟨_, h1, Or.inl rfl⟩
+      · exact ⟨_, h1, Or.inr (Or.inl rfl)⟩
+      · exact ⟨_, h1, Or.inr (Or.inr rfl)⟩
+    obtain ⟨r', hr', hc⟩ := hex
+    obtain ⟨hm, hcur⟩ := gen_outcomes_read hok hn hc
+    exact ⟨r, r', hr, hr', ho, hc, hm, hcur⟩
+
+/-- **v2_destroy_op_atomic.** Destroy-rotated on an existing ring under any fault: every other ring is
+untouched; the ring is what it was, or exactly the key listed under the index is destroyed. -/
+theorem v2_destroy_op_atomic (st : V2) (ft : Fault) (s : Slot) (i : Nat) (r : Ring) (hr : st.rings s = some r) :
+    (∀ s', s' ≠ s → (st.stepF ft (.drot s i)).1.rings s' = st.rings s') ∧
+    ((st.stepF ft (.drot s i)).1.rings s = some r ∨
+     ∃ act q, r.rotatedActive = some act ∧ act[i - KeyNames.v2DestroyIndexOffset]? = some q ∧
+       (st.stepF ft (.drot s i)).1.rings s = some (r.destroyed q)) :=
+  V2.stepF_drot_atomic st ft s i r hr
+
+/-- **v2_first_generation_counterexample** (known finding `v2:ring-without-current-key`). The hypothesis
+"generated before" of `v2_write_op_atomic` is needed: crash the very first generation of a slot after
+the ring was created (call 3: Lock, Get, Put, Rename) – an empty ring without current key stays behind
+and `ListKeys` fails for the whole store. Protocol: `C08.v2d ca 3 H O g:al F l`. -/
+theorem v2_first_generation_counterexample :
+    let cut := V2.init.stepF ⟨.ca, 3⟩ (.gen ⟨.al, 0⟩)
+    cut.2.2 = .crash ∧ cut.1.rings ⟨.al, 0⟩ = some Ring.empty ∧ (cut.1.step .list).2 = .err := by decide +kernel
+
 /-! ## non-vacuity -/
 
 /-- the freshness hypothesis holds initially and after a completed write -/
@@ -126,5 +218,17 @@ example : FS.init.TmpFresh := by intro t ht; simp [FS.init] at ht
 example : (applyAll FS.init (writeKeyFileCalls FS.init (privFile ss0) (.full 1))).1.cur (privFile ss0) = some (.full 1) := by
   have h := (v1_write_complete FS.init (privFile ss0) (.full 1) (by intro t ht; simp [FS.init] at ht)).2.1
   rw [h]; simp
+
+/-- the hypotheses of `v2_write_op_atomic` are satisfiable: a slot generated twice, fault at call 7 -/
+example :
+    (∀ o ∈ [Op.gen ss0, .gen ss0], o.isDcur = false ∧ o.idxOk = true) ∧ genFirst (fun _ => false) [Op.gen ss0, .gen ss0] = true ∧
+    (V2.init.run [.gen ss0, .gen ss0]).1.count ss0 ≠ 0 := by decide +kernel
+
+/-- an instance of `v1_write_op_atomic` where the fault bites: crash after the `Link` (call 5) of the
+third generation – the old key 2 is current and in the history twice, nothing is lost -/
+example :
+    let st := ((V1.init (-1)).run [.gen ss0, .gen ss0]).1
+    let fs' := (st.stepF ⟨.ca, 5⟩ (.gen ss0)).1.fs
+    fs'.cur (privFile ss0) = some (.full 2) ∧ (fs'.old (privFile ss0)).map (·.2) = [.full 1, .full 2] := by decide +kernel
 
 end AcraModel.Props.C08
